@@ -76,7 +76,10 @@ var propC03 = &modelProp{
 			W:          map[string]int{"insert": 8, "update": 8, "resave": 2, "delete": 4, "resurrect": 2, "many": 2, "bulk": 1, "reopen": 3, "abandonReopen": 1, "upsertUUID": 1, "query": 1},
 			AllowCache: true, AllowCompress: true, AllowAsync: true,
 			MinUnique: 1, MaxUnique: 3, MaxIndexed: 1, CasePaths: 1,
-			TinyBias: 70, BigBias: 12, HookBias: 8, RichShape: 5, MaxLeaves: 1,
+			// types whose equal values have several representations (instants in different
+			// zones, 0.0 / -0.0, float32 widened, case-mapped strings) are favoured
+			ConsPaths: []string{"T", "In.T", "Pt.T", "F64", "F32", "In.F", "S", "Pt.S", "Emb.ES", "U8", "I64", "U64", "In.N", "Emb.EN", "I8", "In.U"},
+			TinyBias:  70, BigBias: 12, HookBias: 8, RichShape: 5, MaxLeaves: 1,
 		}
 	},
 	opts: RunOpts{SweepLevel: 1, SweepEveryOp: false, Control: true},
@@ -125,7 +128,8 @@ var propC07 = &modelProp{
 			W:          map[string]int{"insert": 4, "update": 1, "delete": 1, "many": 8, "bulk": 8, "reopen": 1},
 			AllowCache: true, AllowCompress: true, AllowAsync: true,
 			MinUnique: 0, MaxUnique: 2, MaxIndexed: 2, CasePaths: 1,
-			TinyBias: 65, BigBias: 10, HookBias: 30, RichShape: 5, MaxLeaves: 1,
+			ConsPaths: []string{"T", "In.T", "Pt.T", "F64", "F32", "In.F", "S", "Pt.S", "Emb.ES", "U8", "I64", "U64", "In.N", "Emb.EN", "I8", "In.U", "S2", "Pt.N"},
+			TinyBias:  65, BigBias: 10, HookBias: 30, RichShape: 5, MaxLeaves: 1,
 		}
 	},
 	opts: RunOpts{SweepLevel: 1, SweepEveryOp: true, Control: true},
@@ -204,7 +208,7 @@ var propC16 = &modelProp{
 	nt: func(e *Env) bool {
 		return e.flags["case-changed-on-store"] > 0 && e.flags["probe-case-changed"] > 0
 	},
-	rule: "strings over mixed-case ASCII, Latin/Greek/Cyrillic/Armenian letters and special-casing runes (ß ı İ ǅ ς ſ K Σ ...); upper, lower or both on top-level, nested-by-value, behind-pointer (nil and non-nil) and embedded string paths, each indexed / unindexed / unique. Oracle: stored == ToLower?(ToUpper?(supplied)) on every read path; re-saving a stored object changes nothing (idempotence); for probe p: match <=> canonical(p) compares with the stored canonical value, identically on indexed and unindexed paths; unique conflict <=> canonical values equal. TestC16Tags drives the struct-tag path (DefaultSchema + sod tags unique,lower / upper / index, tags on nested, behind-pointer and embedded fields) with the same oracle written directly on strings.ToUpper/ToLower, and checks that unique implies an index while an untagged field has none. Value sources include strings longer than 32 bytes in both cases. Non-trivial: >=1 stored value changed by canonicalisation and >=1 probe changed by canonicalisation. Distinct by program hash.",
+	rule: "strings over mixed-case ASCII, Latin/Greek/Cyrillic/Armenian letters and special-casing runes (ß ı İ ǅ ς ſ K Σ ...); upper, lower or both on top-level, nested-by-value, behind-pointer (nil and non-nil) and embedded string paths, each indexed / unindexed / unique; sometimes also on the interface{} field while it holds a string. Oracle: stored == ToLower?(ToUpper?(supplied)) on every read path; re-saving a stored object changes nothing (idempotence); for probe p: match <=> canonical(p) compares with the stored canonical value, identically on indexed and unindexed paths; unique conflict <=> canonical values equal. TestC16Tags drives the struct-tag path (DefaultSchema + sod tags unique,lower / upper / index, tags on nested, behind-pointer and embedded fields) with the same oracle written directly on strings.ToUpper/ToLower, and checks that unique implies an index while an untagged field has none. Value sources include strings longer than 32 bytes in both cases. Non-trivial: >=1 stored value changed by canonicalisation and >=1 probe changed by canonicalisation. Distinct by program hash.",
 	after: func(e *Env) {
 		// explicit idempotence check on what the database returns
 		objs, err := e.db.All(&Doc{})
@@ -214,6 +218,12 @@ var propC16 = &modelProp{
 		for _, o := range objs {
 			d := o.(*Doc)
 			for path, c := range e.cfg.Cons {
+				if sv, ok := d.Any.(string); ok && path == "Any" && (c.Upper || c.Lower) {
+					if canonCase(c, sv) != sv {
+						e.failf("stored value %q in the interface field Any is not in canonical case (constraint %+v)", sv, c)
+					}
+					e.flag("case-constraint-on-interface-field")
+				}
 				if (c.Upper || c.Lower) && docPathIndex[path].Class == ClsStr && !throughNil(d, path) {
 					v := leaf(d, path).String()
 					if canonCase(c, v) != v {
